@@ -131,6 +131,22 @@ def oracle(case: dict):
             if got.get("fromB") != 2 or got.get("subB") != {"x": 3} or got.get("own") != 1:
                 inc_lines = [l for l in txt.splitlines() if "#include" in l]
                 return ("include-not-resolved", f"a={case['a']} b={case['b']}: dumped directive {inc_lines} does not lead to b; read back {native.strip_placeholders(got)!r}")
+            # second round in the same process: the other file is rewritten through the library (new content), then the dumped
+            # file is read again, and a second dict in a's folder includes b afresh: both must show what b holds NOW
+            try:
+                dictIO.DictWriter.write({"fromB": 20, "lateB": 7, "subB": {"x": 3}}, b, mode="w")
+                back2 = gen.plain(dict(dictIO.DictReader.read(a)))
+                a2 = a.with_name("a2_" + a.name)
+                da2 = dictIO.SDict(a2)
+                da2.update({"own2": 1})
+                da2.include(dictIO.DictReader.read(b))
+                da2.dump()
+                back3 = gen.plain(dict(dictIO.DictReader.read(a2)))
+            except Exception as e:  # noqa: BLE001
+                return ("include-raises", f"second round (rewrite b, read again) raised {type(e).__name__}: {e}")
+            for nm, bk in (("a", back2), ("a2", back3)):
+                if bk.get("fromB") != 20 or bk.get("lateB") != 7:
+                    return ("include-stale", f"a={case['a']} b={case['b']}: after b was rewritten, reading {nm} gives fromB={bk.get('fromB')!r} lateB={bk.get('lateB')!r} (b holds 20 and 7)")
             return None
         finally:
             shutil.rmtree(tmp, ignore_errors=True)
